@@ -140,7 +140,7 @@ static void zoo_weights(struct zoo_w *w, const char *prop)
 		w->w_unreg = 45; w->w_reg = 25; w->acts_max = 5;
 	} else if (!strcmp(prop, "C02") || !strcmp(prop, "C03")) {
 		w->nfd = 6; w->ntimer = 1; w->ntask = 2; w->nevent = 1; w->nraw = 1;
-		w->w_seth = 35; w->w_io = 30; w->w_close = 8; w->w_cookie = 3; w->nloops_max = 1;
+		w->w_seth = 35; w->w_io = 30; w->w_close = 8; w->w_cookie = 3; w->nloops_max = 1; w->tryfail_pct = 18;
 	} else if (!strcmp(prop, "C04")) {
 		w->ntimer = 6; w->nfd = 3; w->w_work = 10; w->w_io = 25; w->nloops_max = 1; w->eintr_pct = 30;
 	} else if (!strcmp(prop, "C06")) {
@@ -322,6 +322,15 @@ static void gen_zoo(const char *prop, int tier)
 			G->obj[o].p[3] = P(30) ? 1 + R(2) : 0;
 			G->obj[o].p[4] = P(30) ? 1 + R(2) : 0;
 			G->obj[o].p[5] = P(w.reuse_pct);
+			if (G->obj[c].p[0] >= 3) {
+				/* a fall-back descriptor for the "fix ->fd and register again" pattern */
+				int alt = chans[R(nchan)];
+				if (G->obj[alt].p[0] < 3) {
+					G->obj[o].p[6] = alt + 1;
+					G->obj[o].p[7] = R(2);
+					G->obj[o].p[5] = P(70);
+				}
+			}
 		}
 		for (i = 0; i < ntm; i++) {
 			int o = add_obj(K_TIMER, t);
